@@ -3,6 +3,7 @@ import gen, gen_rules, patdiff
 from props.common_pat import blob_tagger, finding_reproduces, replay  # noqa: F401
 
 import enginetie
+from props import c05
 
 CONSTS = ("IGNORE_INST_ADDR", "SKIP_TO_END_OF_PATTERN_NODE")
 ASSUMPTIONS = ["patterns that can match the empty sequence are outside the quantifier"]
@@ -19,6 +20,8 @@ def run(ctx, factor):
     n = ctx.budget(300, 8000) * factor
     for _ in range(n):
         doc = gen_rules.rule(g, FEATS, nitems=g.int(1, 3), depth=1)
+        if g.chance(0.15):
+            doc = c05.spine_rule(g)         # rules with capture groups: the reported text is still the whole match
         seq = []
         k = g.int(1, 4)
         for _ in range(k):
@@ -29,14 +32,19 @@ def run(ctx, factor):
             else:
                 seq += r
             seq += [(m, o) for _, m, o in g.listing(g.int(0, 2))]
+        shape = g.int(0, 59)
+        if shape == 0:
+            seq = seq * g.int(30, 120)              # a long listing: dozens to hundreds of matches, none may be dropped
         addr = 0x1000
         insts = []
         for m, o in seq:
             insts.append(("%x" % addr, m, o))
             addr += g.int(1, 8)
+        if 1 <= shape <= 6 and insts:
+            insts = insts + insts                   # sections restarting at the same addresses: identical matched texts
         o = patdiff.observe(ctx, doc, insts, modes=("bool", "all", "first"))
         usable = patdiff.correspondence(ctx, o)
-        tags = ["realisations=%d" % k]
+        tags = ["realisations=%d" % k] + (["long-listing"] if shape == 0 else ["repeated-section"] if 1 <= shape <= 6 else [])
         if usable:
             nm = len(o["model"][1]["spec"]["scan"])
             tags.append("spec-matches=%d" % min(nm, 5))
